@@ -42,7 +42,9 @@ func c20Termination(r *verdict.Run, race bool) {
 		// clients of every kind that went away before the termination (orderly close, reset, half-close), alone or next to live ones
 		"departed-close", "departed-rst", "departed-half-close", "departed-and-live", "departed-blocked-rst",
 		// clients whose blocking command has been dispatched but does not count as blocked yet when the termination starts
-		"about-to-block"}
+		"about-to-block",
+		// clients that do not read their (large) replies: still connected, or gone by reset while the emulator was writing
+		"stalled-reader", "stalled-reader-rst"}
 	parallel(len(scenarios), 6, func(i int) {
 		sc := scenarios[i]
 		c, err := startChild(race)
@@ -81,6 +83,7 @@ func c20Termination(r *verdict.Run, race bool) {
 		}
 		setup, _ := e.dial()
 		setup.Do("SET", "secret", "data-before-close")
+		setup.Do("SET", "big", strings.Repeat("B", 1<<20))
 		setup.Close()
 		mk := func(kind string) {
 			lc := add(kind)
@@ -100,6 +103,13 @@ func c20Termination(r *verdict.Run, race bool) {
 				lc.cn.Send(b)
 			case "in-multi":
 				lc.cn.Pipeline([][]string{{"MULTI"}, {"SET", "from-multi", "1"}, {"INCR", "x"}})
+			case "stalled-reader":
+				// 48 replies of 1 MiB each that the client never reads: the emulator ends up blocked in a socket write
+				var b []byte
+				for j := 0; j < 48; j++ {
+					b = append(b, resp.Cmd("GET", "big")...)
+				}
+				lc.cn.Send(b)
 			case "blocked-forever":
 				lc.cn.SendCmd("BLPOP", "never-pushed", "0")
 			case "blocked-10s":
@@ -125,6 +135,12 @@ func c20Termination(r *verdict.Run, race bool) {
 			for j := 0; j < 4; j++ {
 				mk("blocked-forever")
 			}
+		case "stalled-reader", "stalled-reader-rst":
+			for j := 0; j < 3; j++ {
+				mk("stalled-reader")
+			}
+			mk("idle")
+			time.Sleep(300 * time.Millisecond) // the socket buffers fill up, the writes block
 		case "about-to-block":
 			c.Ctl("park blk:before-begin -1")
 			from := c.EventCount()
@@ -150,6 +166,18 @@ func c20Termination(r *verdict.Run, race bool) {
 			}
 		}
 		time.Sleep(50 * time.Millisecond) // let blocking commands block, pipelines start
+		if sc == "stalled-reader-rst" {
+			var live []*lifeClient
+			for _, lc := range clients {
+				if lc.kind == "stalled-reader" {
+					lc.cn.CloseRST()
+				} else {
+					live = append(live, lc)
+				}
+			}
+			clients = live
+			time.Sleep(200 * time.Millisecond) // the blocked writes fail
+		}
 		if strings.HasPrefix(sc, "departed-") {
 			var live []*lifeClient
 			for j, lc := range clients {
@@ -475,7 +503,7 @@ func c20MultiInstance(r *verdict.Run, race bool) {
 var _ sync.Mutex
 
 func checkC20(r *verdict.Run) {
-	r.Rule = "scenarios run inside child processes through the emulator's Go API (RequestTermination / WaitForTermination / Close), observed through sockets: (1) termination with 16 client populations (idle, half a command sent, pipeline in flight, inside MULTI, blocked with timeout 0 and 10 s, 200 connections, mixtures, and the same kinds after the clients went away by close / reset / half-close before the termination, alone or next to live clients, and clients whose blocking command was dispatched but not yet blocked): Close must return within 6 s and afterwards every pre-existing connection must get EOF/reset on its next request (never a normal reply, never a write), new connections are refused, and within 3 s no goroutine of the emulator is left; " +
+	r.Rule = "scenarios run inside child processes through the emulator's Go API (RequestTermination / WaitForTermination / Close), observed through sockets: (1) termination with 16 client populations (idle, half a command sent, pipeline in flight, inside MULTI, blocked with timeout 0 and 10 s, 200 connections, mixtures, and the same kinds after the clients went away by close / reset / half-close before the termination, alone or next to live clients, clients whose blocking command was dispatched but not yet blocked, and clients that do not read 48 MiB of replies - still connected or reset while the emulator was writing): Close must return within 6 s and afterwards every pre-existing connection must get EOF/reset on its next request (never a normal reply, never a write), new connections are refused, and within 3 s no goroutine of the emulator is left; " +
 		"(2) port/state reuse: Close then a new emulator on the same port in the same process, repeatedly, with predecessor connections still open and writing: it must bind and be empty in all 16 databases; (3) two emulators in one process: data, CLIENT LIST, CLIENT KILL, CLIENT UNBLOCK must not cross instances, closing one leaves the other serving. distinct = scenarios and cycles"
 	c20Termination(r, false)
 	c20PortReuse(r, tierPick(r, 50, 1000))
